@@ -11,6 +11,7 @@ import Rs1090.Props.C11
 import Rs1090.Model.Decode.Timed
 import Rs1090.Props.C01
 import Rs1090.Proofs.JsonText
+import Rs1090.Gen.HiddenState
 namespace Rs1090.Props.C07
 open Rs1090 Rs1090.Model Rs1090.Model.Message
 
@@ -359,5 +360,22 @@ example : ∃ kvs, tryFrom [0x8d,0x40,0x6b,0x90,0x20,0x15,0xa6,0x78,0xd4,0xd2,0x
   | ok d => obtain ⟨kvs, e⟩ := serialises _ d hd; exact ⟨kvs, by rw [e]⟩
   | err e => rw [hd] at h; cases h
   | panic x => rw [hd] at h; cases h
+
+/-! ### hidden state (the code side of "is a function of its input") -/
+
+/-- **No hidden state besides the reviewed one** in the files this property is anchored in.  'Decoding that hex again gives the same fields' needs the decoder to be a function of the frame: the only site in its files is the serialisation switch `CONFIG`, which is modelled (`Config`, three states). Seeds C07-e-m1 / C07-h-m2 put a per-thread memo of Comm-B inferences into commb.rs.
+    The translator lists on every run every construct through which a Rust function can carry state from one
+    call to the next without it showing in its signature (`static`, `thread_local!`, `lazy_static!`,
+    `OnceCell`/`OnceLock`/`Lazy`, `Cell`/`RefCell`/`UnsafeCell`, `Mutex`/`RwLock`, atomics, `unsafe`; whole
+    files, gen/extractors/hidden_state.py); a memo, cache or counter added there breaks this obligation by
+    name, whatever inputs the harness happens to generate. -/
+theorem hidden_state_reviewed :
+    Gen.HiddenState.sitesIn ["decode/mod.rs", "decode/adsb.rs", "decode/commb.rs", "decode/crc.rs", "decode/bds/mod.rs",
+   "decode/bds/bds05.rs", "decode/bds/bds06.rs", "decode/bds/bds08.rs", "decode/bds/bds09.rs",
+   "decode/bds/bds10.rs", "decode/bds/bds17.rs", "decode/bds/bds18.rs", "decode/bds/bds19.rs",
+   "decode/bds/bds20.rs", "decode/bds/bds21.rs", "decode/bds/bds30.rs", "decode/bds/bds40.rs",
+   "decode/bds/bds44.rs", "decode/bds/bds45.rs", "decode/bds/bds50.rs", "decode/bds/bds60.rs",
+   "decode/bds/bds61.rs", "decode/bds/bds62.rs", "decode/bds/bds65.rs"] =
+      [("decode/mod.rs", "static CONFIG: OnceCell<SerializeConfig> = OnceCell::new();")] := by decide
 
 end Rs1090.Props.C07
